@@ -112,6 +112,24 @@ pub fn case(sink: &mut Sink, r: &mut Rng, v: &Value, class: &str) {
     let nontrivial = !matches!(v, Value::Null | Value::Bool(_));
     sink.op(&format!("canon {}", shown), &ans, nontrivial);
     sink.oracle(ans != "panic", "canonicalize panicked", &replay);
+    // every route to the canonical encoding gives the same answer: `Json::canonicalize`, `Json::to_writer`
+    // (the writer the crate documents for canonical output) and `JsonPretty::canonicalize`
+    {
+        let v2 = v.clone();
+        let w = match guarded(move || { let mut buf = Vec::new(); Json::to_writer(&mut buf, &v2).map(|_| buf) }) {
+            Err(()) => "panic".to_string(),
+            Ok(Err(_)) => "err".to_string(),
+            Ok(Ok(b)) => format!("ok {}", hex(&b)),
+        };
+        sink.oracle(w == ans, "Json::to_writer does not write (or refuse) what Json::canonicalize answers", &replay);
+        let v3 = v.clone();
+        let p2 = match guarded(move || in_toto::interchange::JsonPretty::canonicalize(&v3)) {
+            Err(()) => "panic".to_string(),
+            Ok(Err(_)) => "err".to_string(),
+            Ok(Ok(b)) => format!("ok {}", hex(&b)),
+        };
+        sink.oracle(p2 == ans, "JsonPretty::canonicalize differs from Json::canonicalize", &replay);
+    }
     // integer-only
     if contains_float(v) {
         sink.oracle(ans == "err", "value with a non-integer number was not rejected", &replay);
